@@ -231,7 +231,7 @@ def mutate(prop, case, rng):
 
 
 def count(prop, tier):
-    return 500 if tier == 'quick' else 20000
+    return 2000 if tier == 'quick' else 20000
 
 
 def projection(prop):
